@@ -166,13 +166,22 @@ pub fn grid_float(r: &mut Rng) -> f32 {
     r.range(-80, 80) as f32 / 8.0
 }
 
+/// "print twins": floats that agree in the three printed decimals and differ in value (and +0.0 /
+/// -0.0 / a tiny positive): anything that compares by printed text instead of by value confuses them
+pub fn twin_float(r: &mut Rng) -> f32 {
+    let base = *r.pick(&[0.25f32, 0.5, 1.5, -2.75, 100.0, 0.123, 0.0, -0.0]);
+    let off = *r.pick(&[0.0f32, 0.0001, 0.0004, -0.0003, 0.00049, 0.0002]);
+    base + off
+}
+
 pub fn float(r: &mut Rng, m: Vals) -> f32 {
     match m {
         Vals::Boundary => *r.pick(&FLOAT_POOL),
         Vals::Small => grid_float(r),
-        Vals::Mixed => match r.below(11) {
+        Vals::Mixed => match r.below(12) {
             0..=3 => *r.pick(&FLOAT_POOL),
             4..=7 => grid_float(r),
+            9 => twin_float(r),
             8 if !lits().floats.is_empty() => *r.pick(&lits().floats),
             _ => {
                 let f = f32::from_bits(r.next_u64() as u32);
